@@ -156,6 +156,20 @@ def bounded_replay(tier, seed):
     for label, got in [("re-used scanner", first), ("after a history of other scans", again)] + [(f"thread {i}", res[i]) for i in res]:
         if got != fresh:
             failures.append({"id": f"replay: {label.split(' ')[0]} differs from a fresh scanner", "function": "multidecoder.multidecoder.Multidecoder.scan", "obligation": "bounded/replay", "case": {"replay": label}, "observed": f"{label}: trees differ from those of a fresh scanner"})
+    # configuration history: a registry built after other builds equals the first build of the same configuration
+    from multidecoder.registry import build_registry
+
+    def names(reg):
+        return [getattr(f, "__name__", None) or f.args[0] for f in reg]
+
+    first_hex = names(build_registry(include=["hex"]))
+    names(build_registry(include=["base64"]))
+    names(build_registry())
+    again_hex = names(build_registry(include=["hex"]))
+    n += 1
+    if first_hex != again_hex:
+        failures.append({"id": "replay: registry depends on the history of earlier builds", "function": "multidecoder.registry.build_registry", "obligation": "bounded/replay", "case": {"replay": "build history"},
+                         "observed": f"build_registry(include=['hex']) has {len(first_hex)} searchers on the first build and {len(again_hex)} after two other builds"})
     return {"evaluations": n, "distinct_nontrivial": n, "scope": f"{len(inputs)} inputs x ({len(seeds)} hash seeds + shuffled os.walk orders in child processes; fresh / re-used / history / 4 threads in-process)", "failures": failures, "samples": [{"replay": "PYTHONHASHSEED=1"}]}
 
 
